@@ -190,8 +190,12 @@ def run(ctx):
         n = rng.randint(1, 5); k = rng.randint(1, 4)
         uniform = rng.random() < 0.7         # True: whole rows scaled (well conditioned); False: only the diagonal scaled (ill conditioned, residual oracle only)
         T = qx.rand_int(rng, n, n, -3, 3); sc = [Fraction(2) ** rng.choice([0, 0, 20, -20, 7, -9]) for _ in range(n)]
+        single_axis = (_ % 3 == 1)           # every third system: each diagonal entry lies on ONE axis (1, i, j or k)
         for i in range(n):
             while T[i][i].is_zero(): T[i][i] = Q(*[rng.randint(-3, 3) for _ in range(4)])
+            if single_axis:
+                cval = rng.choice([-3, -2, -1, 1, 2, 3]); ax = (i + _) % 4
+                T[i][i] = Q(*[cval if a == ax else 0 for a in range(4)])
             if uniform: T[i] = [a * sc[i] for a in T[i]]
             else: T[i][i] = T[i][i] * sc[i]
         X = qx.rand_int(rng, n, k, -3, 3)
